@@ -438,6 +438,35 @@ func (pr *Prover) defFacts(fs *factSet, v ssa.Value, depth int) {
 				pr.defFacts(fs, a, depth+1)
 			}
 		}
+	case *ssa.Parameter:
+		// an unexported helper's integer parameter takes only the values its library callers pass
+		if isIntType(x.Type()) {
+			if args, known := callerArgsOf(x); known {
+				lo, hi, ok := int64(0), int64(0), true
+				first := true
+				for _, a := range args {
+					cs := constSetOf(a, 0)
+					if cs == nil {
+						ok = false
+						break
+					}
+					for c := range cs {
+						if first || c < lo {
+							lo = c
+						}
+						if first || c > hi {
+							hi = c
+						}
+						first = false
+					}
+				}
+				if ok && !first {
+					self := lin{pr.K.Key(v), 0}
+					fs.le(lin{zeroTerm, lo}, self, 0, "values passed by the library callers")
+					fs.le(self, lin{zeroTerm, hi}, 0, "values passed by the library callers")
+				}
+			}
+		}
 	case *ssa.Phi:
 		pr.phiFacts(fs, x)
 	case *ssa.UnOp:
@@ -884,6 +913,10 @@ type Goal struct {
 	C    int64
 	Desc string
 	extra []ssa.Value // further values whose definitions are relevant
+	// edgeCond: an additional branch condition known to hold (the condition of the CFG edge over
+	// which a phi's incoming value arrives)
+	edgeCond ssa.Value
+	edgePol  bool
 }
 
 type ProofResult struct {
@@ -893,7 +926,54 @@ type ProofResult struct {
 	Goal    string
 }
 
+// Prove decides the goal; when it fails and the goal mentions the length of a phi-merged slice, it
+// is proved separately for every incoming value at the end of the corresponding predecessor
+// (the phi equals that value whenever control arrives over that edge).
 func (pr *Prover) Prove(at ssa.Instruction, g Goal) ProofResult {
+	res := pr.prove1(at, g)
+	if res.OK || g.YL == nil {
+		return res
+	}
+	// find a phi whose len is the right-hand term
+	for _, ex := range g.extra {
+		ph, ok := ex.(*ssa.Phi)
+		if !ok || !instrDominates(ph, at) && ph.Block() != at.Block() {
+			continue
+		}
+		if pr.linLen(ph, "len").T != g.YL.T {
+			continue
+		}
+		all := len(ph.Edges) > 0
+		for i, e := range ph.Edges {
+			pred := ph.Block().Preds[i]
+			l := pr.linLen(e, "len")
+			l.Off += g.YL.Off
+			sub := Goal{X: g.X, XL: g.XL, YL: &l, C: g.C, extra: []ssa.Value{e}}
+			if iff, isIf := pred.Instrs[len(pred.Instrs)-1].(*ssa.If); isIf && pred.Succs[0] != pred.Succs[1] {
+				sub.edgeCond, sub.edgePol = iff.Cond, pred.Succs[0] == ph.Block()
+			}
+			// the left-hand value must be available at the predecessor's end
+			if xv, isInstr := g.X.(ssa.Instruction); isInstr && g.XL == nil {
+				if !instrDominates(xv, pred.Instrs[len(pred.Instrs)-1]) {
+					all = false
+					break
+				}
+			}
+			if r := pr.prove1(pred.Instrs[len(pred.Instrs)-1], sub); !r.OK {
+				all = false
+				break
+			}
+		}
+		if all {
+			res.OK = true
+			res.Facts = append(res.Facts, "proved for every incoming value of the merged slice")
+			return res
+		}
+	}
+	return res
+}
+
+func (pr *Prover) prove1(at ssa.Instruction, g Goal) ProofResult {
 	var x, y lin
 	var ops []ssa.Value
 	if g.XL != nil {
@@ -920,6 +1000,11 @@ func (pr *Prover) Prove(at ssa.Instruction, g Goal) ProofResult {
 		return res
 	}
 	fs := pr.collect(at, append(ops, g.extra...)...)
+	if g.edgeCond != nil {
+		pr.condFacts(fs, g.edgeCond, g.edgePol, "edge condition")
+		pr.nilEdgeFacts(fs, g.edgeCond, g.edgePol)
+		pr.secondPass(fs)
+	}
 	gr := newGraph(fs.facts)
 	d, ok := gr.dist(x.T, y.T)
 	if ok && d <= need {
